@@ -95,6 +95,10 @@ type InstanceReq struct {
 	Solver      string          `json:"solver"`
 	Known       []string        `json:"known,omitempty"`
 	Script      []decision      `json:"script,omitempty"` // single path
+	Prefix      []decision      `json:"prefix,omitempty"` // explore the subtree below this script
+	SliceMs     int64           `json:"slice_ms,omitempty"` // hand the pending subtrees back after this much time
+	Level       int             `json:"level,omitempty"`
+	SplitAt     int             `json:"split_at,omitempty"` // stop when this many subtrees are pending and return them
 	Concrete    []ReplayItem    `json:"concrete,omitempty"`
 	KeepGoing   bool            `json:"keep_going"`
 	WallLimitMs int64           `json:"wall_limit_ms"`
@@ -165,6 +169,9 @@ func (w *worker) runInstance(req *InstanceReq) (res *InstanceResult) {
 	s.stats = SolverStats{}
 	x := &Explorer{solver: s, inst: res, symFns: map[string]bool{}}
 	x.pending = [][]decision{req.Script}
+	if req.Prefix != nil {
+		x.pending = [][]decision{req.Prefix}
+	}
 	args := make([]value, len(req.Args))
 	for i, a := range req.Args {
 		args[i] = a
@@ -182,13 +189,26 @@ func (w *worker) runInstance(req *InstanceReq) (res *InstanceResult) {
 			res.OutOfReach["instance wall-clock limit reached"]++
 			break
 		}
-		script := x.pending[len(x.pending)-1]
-		x.pending = x.pending[:len(x.pending)-1]
+		var script []decision
+		if req.SplitAt > 0 {
+			// breadth-first while splitting, so that the pending subtrees are large and shallow
+			script = x.pending[0]
+			x.pending = x.pending[1:]
+		} else {
+			script = x.pending[len(x.pending)-1]
+			x.pending = x.pending[:len(x.pending)-1]
+		}
 		w.runPath(x, fn, args, script, req)
 		if len(res.Violations) > 0 && !req.KeepGoing {
 			break
 		}
 		if req.Script != nil {
+			break
+		}
+		if (req.SplitAt > 0 && len(x.pending) >= req.SplitAt) ||
+			(req.SliceMs > 0 && len(x.pending) > 0 && time.Since(t0).Milliseconds() > req.SliceMs) {
+			res.Pending = x.pending
+			x.pending = nil
 			break
 		}
 	}
@@ -334,6 +354,8 @@ func main() {
 		checkMain(os.Args[2:])
 	case "replay":
 		replayMain(os.Args[2:])
+	case "selftest":
+		selftestMain()
 	default:
 		fatal("unknown command %s", os.Args[1])
 	}
